@@ -65,7 +65,12 @@ def run(rep, br, proofs, rng, tier):
     for k in range(nfree):
         s = rng.choice(["root", "child-loop", "child-ret", "nested-loop", "nopool-loop", "nopool-ret"])
         cases.append(mk_case("free.%d" % k, "abort09", s, "delay", str(rng.choice([0, 1, 2, 5, 10, 20, 50, 100, 200, 500, rng.randrange(1000)])), "-"))
-    impl, err = vlib.run_impl([c["line"] for c in cases], timeout=3000)
+    # a new harness process for every 25 schedules: a run whose abort is lost goes on spinning in its goroutine, the
+    # next schedules must not compete with such leftovers for the processors
+    impl, err = {}, ""
+    for b in range(0, len(cases), 25):
+        i1, e1 = vlib.run_impl([c["line"] for c in cases[b:b + 25]], timeout=600)
+        impl.update(i1); err += e1 or ""
     mcases = [mk_case(c["id"], "abort09", "fixed", *c["args"]) for c in cases if c["args"][0] in MODELLED and c["args"][1] != "delay"]
     ocases = [mk_case("o." + c["id"], "abort09", "orig", *c["args"]) for c in cases if c["args"][0] in MODELLED and c["args"][1] != "delay"]
     model, _ = vlib.run_model([c["line"] for c in mcases + ocases], timeout=300)
